@@ -9,7 +9,8 @@ Property theorems only; helper lemmas: `Demux/Join*.lean`, `Demux/Cor*.lean`, `M
 `EnParse` (`Mux/Spec.lean`) is the reader written from EN 300 472 / EN 301 775 / ISO 13818-1;
 `Demux.ofLine` turns one of its lines into the `vbi_sliced` libzvbi reports (Teletext B 3, VPS 4,
 WSS 0x400 with the two reserved bits set, Caption 8); `Demux.Sep` says that the packets are frames the
-demultiplexer can tell apart: each has 1..63 lines with defined, strictly ascending line numbers and
+demultiplexer can tell apart: each has 1..`frameCap cfg` lines (64 = all of `dx->sliced[64]` with fix
+dvb-demux-full-frame, 63 before it) with defined, strictly ascending line numbers and
 begins on a line not beyond the last line of the packet before ("a frame boundary is recognisable by
 a non-increasing line number"); `Demux.Holds fs pts lines`: the frame buffer holds exactly `lines`
 with `frame_pts = pts`, `new_frame` clear.
@@ -28,7 +29,7 @@ order, each with the PTS the reader decodes (ISO 13818-1 2.4.3.7) and the lines 
 (service, line number from `line_offset`/`field_parity`, payload bits with the bit order of each
 service); everything is consumed and the last packet's frame is held in the frame buffer. -/
 theorem parser_equivalence (cfg : SrcCfg) (bs : Bytes) (ps : List Pes) (h : pesStream bs = some ps)
-    (hb : ∀ b ∈ bs, b < 256) (hsep : Sep (ps.map (·.lines))) (chunks : List Bytes) (hch : chunks.flatten = bs) :
+    (hb : ∀ b ∈ bs, b < 256) (hsep : Sep cfg (ps.map (·.lines))) (chunks : List Bytes) (hch : chunks.flatten = bs) :
     (pesFeeds cfg St.init chunks).err = none
     ∧ (pesFeeds cfg St.init chunks).frames = ps.dropLast.map outOf
     ∧ frames cfg bs = ps.dropLast.map outOf
@@ -67,7 +68,7 @@ theorem mux_demux_roundtrip_model (cfg : SrcCfg) (ops : List Op) (hops : ∀ op 
   have hasc := Zvbi.Mux.run_asc ops hops Zvbi.Mux.newPes
   have hlines : ps.map (·.lines) = (run Zvbi.Mux.newPes ops).2.2.map (·.lines) := by
     rw [← hcont, List.map_map]; rfl
-  have hS : Sep (ps.map (·.lines)) := by
+  have hS : Sep cfg (ps.map (·.lines)) := by
     rw [hlines]
     cases hss : (run Zvbi.Mux.newPes ops).2.2 with
     | nil => trivial
@@ -90,7 +91,7 @@ and packet PTS it still holds: an intact stream of separable frames that follows
 completely (all packets but the last, which is held), exactly as from a new demultiplexer.
 (The part of `C07.resync_full` whose sender side is the standards reader / C06's multiplexer.) -/
 theorem resync_from_frame_start (cfg : SrcCfg) (fs : FS) (hnf : fs.newFrame = true) (bs : Bytes) (ps : List Pes)
-    (h : pesStream bs = some ps) (hb : ∀ b ∈ bs, b < 256) (hsep : Sep (ps.map (·.lines))) :
+    (h : pesStream bs = some ps) (hb : ∀ b ∈ bs, b < 256) (hsep : Sep cfg (ps.map (·.lines))) :
     (arun cfg { skip := 0, lookahead := 48, fs := fs } bs).frames = ps.dropLast.map outOf
     ∧ (arun cfg { skip := 0, lookahead := 48, fs := fs } bs).frames = frames cfg bs
     ∧ (arun cfg { skip := 0, lookahead := 48, fs := fs } bs).stop = none := by
@@ -204,7 +205,7 @@ Teletext on line 3 (line number error) | Teletext, undefined line, second field 
 back differently: the second frame has the PTS of packet 3 from the coroutine and of packet 2 from
 feed.  (Both repairs are in /repo; this is why `hpd` is a hypothesis, not a defect of the current tree.) -/
 theorem cor_equals_feed_needs_discard :
-    let c : SrcCfg := { corSkipsEmpty := true, pesDiscards := false }
+    let c : SrcCfg := { corSkipsEmpty := true, pesDiscards := false, lateOverflow := false, tsCompletesInHeader := false }
     let r := pesCorDrain (2 * corNoDiscardWitness.length + 4) c 0 St.init corNoDiscardWitness 0 64
     r.err = none ∧ r.stalled = false ∧
     r.frames.map (fun f => (f.pts, f.lines.map fun l => l.line)) = [(1, [7]), (3, [0, 7])] ∧
@@ -252,7 +253,7 @@ theorem mux_demux_roundtrip_cor (hse : cfg.corSkipsEmpty = true) (hpd : cfg.pesD
   have hasc := Zvbi.Mux.run_asc ops hops Zvbi.Mux.newPes
   have hlines : ps.map (·.lines) = (run Zvbi.Mux.newPes ops).2.2.map (·.lines) := by
     rw [← hcont, List.map_map]; rfl
-  have hS : Sep (ps.map (·.lines)) := by
+  have hS : Sep cfg (ps.map (·.lines)) := by
     rw [hlines]
     cases hss : (run Zvbi.Mux.newPes ops).2.2 with
     | nil => trivial
@@ -282,53 +283,90 @@ theorem mux_demux_roundtrip_cor (hse : cfg.corSkipsEmpty = true) (hpd : cfg.pesD
 
 /-! ## Finding C07-full-frame: a frame that fills the sliced buffer exactly
 
-`line_address` reports VBI_ERR_SLICED_BUFFER_OVERFLOW before it tests for a new frame, so a frame of
-exactly 64 lines (`dx->sliced[64]`) cannot be closed: the first unit of the next frame gets the error,
-the 64 lines are discarded and that packet is skipped.  Reproduced on the real code
-(`corpus/C07/full-frame-64.ops`), proposed repair `fixes/dvb-demux-full-frame.diff`.  This is why
-`Demux.FrameLinesOK` demands fewer than 64 lines per frame, and it refutes `C07.resync_full` as written. -/
+Before fix dvb-demux-full-frame `line_address` reports VBI_ERR_SLICED_BUFFER_OVERFLOW before it tests for
+a new frame, so a frame of exactly 64 lines (`dx->sliced[64]`) cannot be closed: the first unit of the
+next frame gets the error, the 64 lines are discarded and that packet is skipped.  Reproduced on the real
+code (`corpus/C07/full-frame-64.ops`), repair `fixes/dvb-demux-full-frame.diff` (overflow test moved
+behind the new-frame tests; `cfg.lateOverflow`, read from the source by `translate/gen_demux.py`).
+The counterexamples are stated for the shape without the fix explicitly (`SrcCfg.earlyOverflow`), the
+positive statements for `cfg.lateOverflow = true`, so both build whatever the current tree looks like. -/
 
 /-- 63 Teletext units with an undefined line, first field, in one packet: legal, fits `dx->sliced[64]` -/
 def fullPacket63 : Bytes := witPacket 2 (List.replicate 63 (witTtxUnit 0xE0 0x40)).flatten
 /-- four ordinary frames: Teletext on line 7, PTS 3..6 -/
 def fourFrames : Bytes := linePacket 3 7 0x55 ++ linePacket 4 7 0x66 ++ linePacket 5 7 0x77 ++ linePacket 6 7 0x11
 
-/-- **two intact frames lost after a legal 63-line packet** (repaired source): of the four ordinary frames
-3, 4 and 5 are to be delivered (6 stays open); after `fullPacket63` only frame 5 is: frame 3 is merged
-with the 63 lines (no boundary recognisable), the 64-line frame is discarded when frame 4 begins, and
-frame 4's packet is skipped. -/
+/-- **two intact frames lost after a legal 63-line packet** (source without fix dvb-demux-full-frame): of
+the four ordinary frames 3, 4 and 5 are to be delivered (6 stays open); after `fullPacket63` only frame 5
+is: frame 3 is merged with the 63 lines (no boundary recognisable), the 64-line frame is discarded when
+frame 4 begins, and frame 4's packet is skipped. -/
 theorem full_frame_lost_counterexample :
-    ((frames SrcCfg.repaired (fullPacket63 ++ fourFrames)).map fun f => (f.pts, f.lines.length)) = [(5, 1)]
-    ∧ ((frames SrcCfg.repaired fourFrames).map fun f => (f.pts, f.lines.length)) = [(3, 1), (4, 1), (5, 1)] := by
+    ((frames SrcCfg.earlyOverflow (fullPacket63 ++ fourFrames)).map fun f => (f.pts, f.lines.length)) = [(5, 1)]
+    ∧ ((frames SrcCfg.earlyOverflow fourFrames).map fun f => (f.pts, f.lines.length)) = [(3, 1), (4, 1), (5, 1)] := by
   decide +kernel
 
-/-- the context `fullPacket63` leaves: at a packet boundary, 63 lines pending -/
-def after63 : St := (pesFeed SrcCfg.repaired St.init fullPacket63).st
+/-- the context `fullPacket63` leaves: at a packet boundary, 63 lines pending (the same in both shapes) -/
+def after63 : St := (pesFeed SrcCfg.earlyOverflow St.init fullPacket63).st
 
-/-- **`C07.resync_full` is false as written** (repaired source): from the reachable context `after63`
-(packet boundary) the intact stream `fourFrames` loses two frames, not at most one. -/
-theorem resync_full_counterexample : ¬ Zvbi.Props.C07.resync_full SrcCfg.repaired := by
+example : after63 = (pesFeed SrcCfg.repaired St.init fullPacket63).st := by decide +kernel
+
+/-- **`C07.resync_full` is false as written** (source without the fix): from the reachable context
+`after63` (packet boundary) the intact stream `fourFrames` loses two frames, not at most one. -/
+theorem resync_full_counterexample : ¬ Zvbi.Props.C07.resync_full SrcCfg.earlyOverflow := by
   intro h
   have h0 : after63.core.skip = 0 ∧ after63.core.lookahead = 48 := by decide +kernel
   obtain ⟨x, y, rest, h1, h2, _, hy⟩ := h after63.core fourFrames h0.1 h0.2
-  have l1 : (arun SrcCfg.repaired after63.core fourFrames).frames.length = 1 := by decide +kernel
-  have l2 : (frames SrcCfg.repaired fourFrames).length = 3 := by decide +kernel
+  have l1 : (arun SrcCfg.earlyOverflow after63.core fourFrames).frames.length = 1 := by decide +kernel
+  have l2 : (frames SrcCfg.earlyOverflow fourFrames).length = 3 := by decide +kernel
   rw [h1, List.length_append] at l1
   rw [h2, List.length_append] at l2
   omega
 
-/-- **resync on an intact stream, from ANY context at a packet boundary** - what `C07.resync_full` can
-say: a demultiplexer at a packet boundary (`skip` 0, header lookahead) in whatever frame state - at a
-frame start or holding a stale frame with arbitrary lines, line counters and PTS - whose frame buffer
-has room for the lines of a packet (fewer than 64 in all, see the finding above), reading an intact
-stream of separable frames (as the standards reader accepts it; C06's multiplexer produces such
-streams): the frames delivered are those of a new demultiplexer on the same stream except that at
-most ONE stale/merged frame comes first (`x`) and at most the FIRST frame is lost (`y`).  Either the
-first packet closes the stale frame (nothing lost), or its lines cannot be told apart from the stale
-ones and are delivered merged with them when the second packet begins. -/
+/-- **full_frame_delivered** (fix dvb-demux-full-frame).  A demultiplexer at a packet boundary holding a
+frame under assembly with whatever lines - in particular one that fills `dx->sliced[64]` exactly - and
+any line counters and PTS: the next packet the standards reader accepts whose first line does not lie
+beyond the frame's last line closes that frame: it is delivered complete, all its lines with its PTS, as
+the first thing that happens, and the new frame holds the packet's lines with the packet's PTS.  (Before
+the fix this needed fewer than 64 lines in the buffer: `full_frame_lost_counterexample`.) -/
+theorem full_frame_delivered (hlo : cfg.lateOverflow = true) (fs : FS) (hnf : fs.newFrame = false)
+    (pk rest : Bytes) (p : Pes) (hp : Zvbi.Mux.EnParse.parsePes pk = some p) (hb : ∀ b ∈ pk, b < 256)
+    (hok : FrameLinesOK cfg p.lines) (hle : firstLine p.lines ≤ fs.frame.lastFrameLine) :
+    ∃ fs', arun cfg { skip := 0, lookahead := 48, fs := fs } (pk ++ rest)
+        = (arun cfg { skip := 0, lookahead := 48, fs := fs' } rest).pre [⟨fs.framePts, fs.frame.lines⟩]
+      ∧ Holds fs' p.pts p.lines := by
+  obtain ⟨hne, hasc, hlt⟩ := hok
+  have hcap64 := frameCap_le cfg
+  obtain ⟨us, hul, hstep, _⟩ := arun_packet (cfg := cfg) fs pk rest p hp hb
+  obtain ⟨l, ls, hls⟩ := List.exists_cons_of_ne_nil hne
+  rw [hls] at hul hasc hlt
+  have hfl : firstLine p.lines = l.line := by simp [firstLine, hls]
+  obtain ⟨fs', hpf, hh', _⟩ := pesPacketFrame_next (cfg := cfg) cfg.corSkipsEmpty
+    { fs with packetPts := p.pts, frame := { fs.frame with nDu := 0 } } us l ls hnf rfl (Or.inl hlo) hul hasc (by omega)
+    (by show l.line ≤ fs.frame.lastFrameLine; rw [← hfl]; exact hle)
+  exact ⟨fs', hstep fs' _ hpf, by rw [hls]; exact hh'⟩
+
+/-- non-vacuity, and the replay `corpus/C07/full-frame-64.ops` on the repaired model: the 64-line frame
+(PTS 2: the 63 undefined-line units and the line of frame 3, which cannot be told apart from them) is
+delivered complete when frame 4 begins, then frames 4 and 5 as sent (6 stays open) -/
+example : ((frames SrcCfg.repaired (fullPacket63 ++ fourFrames)).map fun f => (f.pts, f.lines.length))
+    = [(2, 64), (4, 1), (5, 1)] := by decide +kernel
+example : SrcCfg.repaired.lateOverflow = true ∧ (arun SrcCfg.repaired after63.core (linePacket 3 7 0x55)).core.fs.frame.lines.length = 64
+    ∧ (arun SrcCfg.repaired after63.core (linePacket 3 7 0x55)).core.fs.newFrame = false := by decide +kernel
+
+/-- **resync on an intact stream, from a context at a packet boundary** - what `C07.resync_full` can
+say in every shape of the source: a demultiplexer at a packet boundary (`skip` 0, header lookahead) in
+whatever frame state - at a frame start or holding a stale frame with arbitrary lines, line counters and
+PTS - reading an intact stream of separable frames (as the standards reader accepts it; C06's multiplexer
+produces such streams): the frames delivered are those of a new demultiplexer on the same stream except
+that at most ONE stale/merged frame comes first (`x`) and at most the FIRST frame is lost (`y`).  Either
+the first packet closes the stale frame (nothing lost), or its lines cannot be told apart from the stale
+ones and are delivered merged with them when the second packet begins, or (repaired source) they do not
+fit and the overflow error discards both.  `ResyncRoom`: the stale lines and the first packet's lines
+make a frame that can be held and closed (`frameCap`) - or the source has the full-frame fix and the
+discard of 7c6e61c, then only the array bound is needed (`resync_intact`). -/
 theorem resync_on_intact_stream (cfg : SrcCfg) (fs : FS) (bs : Bytes) (ps : List Pes) (h : pesStream bs = some ps)
-    (hb : ∀ b ∈ bs, b < 256) (hsep : Sep (ps.map (·.lines)))
-    (hcap : ∀ p ∈ ps, fs.frame.lines.length + p.lines.length < 64) :
+    (hb : ∀ b ∈ bs, b < 256) (hsep : Sep cfg (ps.map (·.lines)))
+    (hcap : ∀ p ∈ ps.head?, ResyncRoom cfg fs p.lines.length) :
     ∃ x y rest, (arun cfg { skip := 0, lookahead := 48, fs := fs } bs).frames = x ++ rest
       ∧ frames cfg bs = y ++ rest ∧ x.length ≤ 1 ∧ y.length ≤ 1
       ∧ (arun cfg { skip := 0, lookahead := 48, fs := fs } bs).stop = none := by
@@ -353,6 +391,67 @@ theorem resync_on_intact_stream (cfg : SrcCfg) (fs : FS) (bs : Bytes) (ps : List
         (hcap x.2 (by simp))
       exact ⟨X, Y, rest, r1, by rw [hfr]; exact r2, r3, r4, r5⟩
 
+/-- **resync, restated** (`C07.resync_full` quantifies over arbitrary continuations and is false in every
+shape, see `resync_full_as_written_counterexample`): once the start code scan has reached a packet
+boundary of an intact stream - whatever the damage before it left in the frame buffer (any lines up to
+the 64 the array holds, any line counters, any PTS, frame start or not) - all frames of the stream are
+delivered as sent except that at most the first one is lost, preceded by at most one stale/merged frame. -/
+def resync_intact_full (cfg : SrcCfg) : Prop :=
+  ∀ (fs : FS) (bs : Bytes) (ps : List Pes), fs.frame.lines.length ≤ 64 → pesStream bs = some ps →
+    (∀ b ∈ bs, b < 256) → Sep cfg (ps.map (·.lines)) →
+    ∃ x y rest, (arun cfg { skip := 0, lookahead := 48, fs := fs } bs).frames = x ++ rest
+      ∧ frames cfg bs = y ++ rest ∧ x.length ≤ 1 ∧ y.length ≤ 1
+      ∧ (arun cfg { skip := 0, lookahead := 48, fs := fs } bs).stop = none
+
+/-- **resync_intact**: the restated recovery clause holds for the source with fix dvb-demux-full-frame and
+the discard of 7c6e61c - no hypothesis on room in the frame buffer any more. -/
+theorem resync_intact (hlo : cfg.lateOverflow = true) (hpd : cfg.pesDiscards = true) : resync_intact_full cfg :=
+  fun fs bs ps h64 h hb hsep =>
+    resync_on_intact_stream cfg fs bs ps h hb hsep (fun _ _ => Or.inr ⟨hlo, hpd, h64⟩)
+
+/-- the four packets of `fourFrames` as the standards reader sees them -/
+def fourPes : List Pes := (pesStream fourFrames).getD []
+
+/-- ... and it fails without the full-frame fix: the reachable context `after63` (63 lines) loses two
+frames of `fourFrames` -/
+theorem resync_intact_counterexample : ¬ resync_intact_full SrcCfg.earlyOverflow := by
+  intro h
+  have hps : pesStream fourFrames = some fourPes := by decide +kernel
+  have hb : ∀ b ∈ fourFrames, b < 256 := by
+    have : fourFrames.all (fun b => decide (b < 256)) = true := by decide +kernel
+    intro b hbm; simpa using List.all_eq_true.mp this b hbm
+  have h63 : after63.fs.frame.lines.length ≤ 64 := by
+    have : after63.fs.frame.lines.length = 63 := by decide +kernel
+    omega
+  have h' := h after63.fs fourFrames fourPes
+  have h'' := h' h63 hps
+  have h3 := h'' hb
+  obtain ⟨x, y, rest, h1, h2, _, hy, _⟩ := h3 (by decide +kernel)
+  have l1 : (arun SrcCfg.earlyOverflow { skip := 0, lookahead := 48, fs := after63.fs } fourFrames).frames.length = 1 := by
+    decide +kernel
+  have l2 : (frames SrcCfg.earlyOverflow fourFrames).length = 3 := by decide +kernel
+  rw [h1, List.length_append] at l1
+  rw [h2, List.length_append] at l2
+  omega
+
+/-- the context after `fullPacket63` and the packet of frame 3: 64 lines held, last defined line 7 -/
+def core64 : Core := (arun SrcCfg.repaired after63.core (linePacket 3 7 0x55)).core
+/-- an intact stream whose first frame (line 9) neither closes the frame held by `core64` nor fits into it -/
+def fourFrames9 : Bytes := linePacket 4 9 0x66 ++ linePacket 5 7 0x77 ++ linePacket 6 7 0x11 ++ linePacket 7 7 0x22
+
+/-- non-vacuity of `resync_intact` (third case: no boundary, no room): from `core64` the overflow error
+discards the 64 stale lines and frame 4; frames 5 and 6 are delivered as sent, frame 4 is the one lost -/
+example : core64.skip = 0 ∧ core64.lookahead = 48 ∧ core64.fs.frame.lines.length = 64 ∧ core64.fs.newFrame = false
+    ∧ ((arun SrcCfg.repaired core64 fourFrames9).frames.map fun f => (f.pts, f.lines.length)) = [(5, 1), (6, 1)]
+    ∧ ((frames SrcCfg.repaired fourFrames9).map fun f => (f.pts, f.lines.length)) = [(4, 1), (5, 1), (6, 1)] := by
+  decide +kernel
+
+/-- a packet with its PTS_DTS_flags cleared (not a legal VBI PES packet: EN 300 472 requires the PTS) -/
+def noPts (p : Bytes) : Bytes := p.set 7 0
+/-- three packets without PTS, then three intact ones -/
+def noPtsStream : Bytes := noPts (linePacket 3 7 0x55) ++ noPts (linePacket 4 7 0x66) ++ noPts (linePacket 5 7 0x77)
+  ++ linePacket 6 7 0x11 ++ linePacket 7 7 0x22 ++ linePacket 8 7 0x33
+
 /-- a context at a packet boundary holding one stale Teletext line on line `n`, frame PTS 99 -/
 def staleCore (n : Nat) : Core :=
   { skip := 0, lookahead := 48,
@@ -365,5 +464,20 @@ example : ((arun SrcCfg.repaired (staleCore 5) fourFrames).frames.map fun f => (
 /-- non-vacuity (closing case): a stale line on line 9 is delivered first, then all frames as sent -/
 example : ((arun SrcCfg.repaired (staleCore 9) fourFrames).frames.map fun f => (f.pts, f.lines.map (·.line))) = [(99, [9]), (3, [7]), (4, [7]), (5, [7])] := by
   decide +kernel
+
+/-- **`C07.resync_full` as written is false in every shape of the source**, the repaired one included: it
+quantifies over arbitrary continuations `L`, and packets without a PTS are accepted while a frame is
+under assembly but skipped at a frame start (`valid_vbi_pes_packet_header`), so a context holding a stale
+line delivers one frame per such packet (four extra frames here) where a new demultiplexer delivers none.
+Not a defect - such packets are not intact VBI PES packets; it is why the recovery clause is restated
+over intact streams (`resync_intact_full`). -/
+theorem resync_full_as_written_counterexample : ¬ Zvbi.Props.C07.resync_full SrcCfg.repaired := by
+  intro h
+  obtain ⟨x, y, rest, h1, h2, hx, _⟩ := h (staleCore 9) noPtsStream rfl rfl
+  have l1 : (arun SrcCfg.repaired (staleCore 9) noPtsStream).frames.length = 6 := by decide +kernel
+  have l2 : (frames SrcCfg.repaired noPtsStream).length = 2 := by decide +kernel
+  rw [h1, List.length_append] at l1
+  rw [h2, List.length_append] at l2
+  omega
 
 end Zvbi.Props.C07Cor
